@@ -56,7 +56,7 @@ def run_tree(binary, t, mode="R", tbl=None, src=None):
 def run(chk):
     binary, tbl = qtylib.session()
     proved = chk.prove("Props.C03", THEOREMS,
-                       ["theories/Props/C03.vo", "theories/Qty/Prelude.vo"],
+                       ["theories/Props/C03.vo", "theories/Qty/Prelude.vo", "theories/Qty/DisplayExec.vo", "theories/Qty/PreludeF.vo"],
                        extra_obligations=["Qty.Prelude." + l for l in TABLE_LEMMAS])
     chk.trusted += [
         "model Qty/Model.v is a hand port of numbat/src/{unit,quantity,product,prefix}.rs (named per function in the file)",
@@ -180,11 +180,12 @@ def run(chk):
         items.append((term, want))
         idx.append(n)
         sh = shown[n]
-        if mode == "S" and scope and sh is not None and sh.kind == "Q" and sh.finite() and tbl.exact_unit(sh.unit):
+        if mode == "S" and scope and sh is not None and sh.kind == "Q" and sh.finite() and tbl.exact_unit(sh.unit) \
+                and not qtylib.range_risk(tbl, t, 150.0):   # simplification multiplies further conversion factors
             tol2 = qtylib.abs_tol(tbl, t, sh.unit, REL)
-            items.append(("r_evalsimp PX_env prelude_n_exact %s %s %s" % (
+            items.append(("r_evalsimp_text PX_env prelude_n_exact %s %s %s" % (
                 qtylib.coq_Q(tol2), qtylib.coq_Q(Fraction(sh.value)), qtylib.tree_coq(tbl, t)),
-                "ok:" + qtylib.show_unit(sh.unit)))
+                "ok:" + qtylib.show_unit(sh.unit) + "|" + qtylib.display_shape_of(sh.display)))
             idx.append(("shown", n))
     bad = qtylib.coq_mismatches(items, "c03")
     mism, registry_rewrites, shown_oos, size_ties = {}, 0, 0, 0
@@ -193,10 +194,11 @@ def run(chk):
             n = idx[k][1]
             if v == "OOS":
                 shown_oos += 1
-            elif (v.startswith("ok:") or v.startswith("val=")) and len(qtylib.parse_unit(v.split(":")[1])) > len(shown[n].unit):
+            elif (v.startswith("ok:") or v.startswith("val=")) and len(qtylib.parse_unit(v.split("|")[0].split(":")[1])) > len(shown[n].unit):
                 registry_rewrites += 1      # the session's unit registry found a simpler unit than the heuristics
                                             # (the value of the displayed result is judged by the oracle above)
-            elif v.startswith("ok:") and sorted(qtylib.parse_unit(v.split(":")[1])) == sorted(shown[n].unit):
+            elif v.startswith("ok:") and qtylib.parse_unit(v.split("|")[0].split(":")[1]) != shown[n].unit \
+                    and sorted(qtylib.parse_unit(v.split("|")[0].split(":")[1])) == sorted(shown[n].unit):
                 registry_rewrites += 0      # same factors, tie order of equal sort keys (sort_unstable)
             else:
                 mism[n] = "displayed result: model " + v
@@ -273,7 +275,7 @@ def run(chk):
         "outcomes": dict(collections.Counter(o.kind + (":" + o.err if o.kind == "E" else "") for o in obs)),
         "skipped_float_range": skipped_range, "outside_exact_scope": skipped_scope,
         "model_mismatches": len(mism), "oracle_failures": len(failing),
-        "displayed_unit_texts_checked": text_checked, "displayed_results_vs_model": sum(1 for i in idx if isinstance(i, tuple)),
+        "displayed_unit_texts_checked": text_checked, "displayed_texts_vs_coq_display_model": sum(1 for i in idx if isinstance(i, tuple)), "displayed_results_vs_model": sum(1 for i in idx if isinstance(i, tuple)),
         "displayed_results_rewritten_by_registry": registry_rewrites, "model_unit_size_ties_not_compared": size_ties, "displayed_results_outside_exact_scope": shown_oos,
         "relative_tolerance": REL,
         "samples": [{"kind": cases[i][0], "mode": cases[i][1], "rpn": qtylib.tree_rpn(cases[i][2]),
